@@ -22,8 +22,8 @@ Coverage table (clause / quantifier dimension of C11 -> where it is explored -> 
                                    a sibling dir or outside the module.  absent: cwd reached through a symlink, --config
                                    naming a directory, `config:` key written inside the file
     InterfaceDir/InterfaceFile     four source-file kinds (//line abs/rel before/after the package clause, blank + non-ASCII
-                                   in the name), never the first file of the package.  absent: symlinked package dirs,
-                                   interfaces of recursively discovered sub-packages, cgo / generated-file variants
+                                   in the name), never the first file of the package (G family: also the first file, and
+                                   recursively discovered sub-packages).  absent: symlinked package dirs, cgo / generated-file variants
     InterfaceName / Mock           exported, unexported, non-ASCII exported, underscore-initial, underscore + capital, caseless
                                    (CJK) first letter.  single point: one name per class
     SrcPackageName/SrcPackagePath  package name different from the last path element in all four packages.
@@ -41,6 +41,12 @@ Coverage table (clause / quantifier dimension of C11 -> where it is explored -> 
                                    absent: values whose RESULT is whitespace-only or contains `..` beyond shape B8,
                                    exec-time errors other than a missing field (unspecified class)
   several configs of an interface  up to 60 entries per run sharing package/root values.  single point: one run = one process
+  siblings without own entry       G family: the five values written ONCE (package config: / top level), 3..7 interfaces of one
+                                   package (one of them declared in another file) selected by all: true / include-interface-regex /
+                                   recursive discovery from the module root (4 packages x 7 interfaces in one run); each of the
+                                   five parameters x {InterfaceName, Mock, StructName, InterfaceFile} incl. two-pass values; every
+                                   member judged against the rendering for ITS variables.  quick draws the level per group.
+                                   absent: exclude-interface-regex, siblings that also have an explicit entry in the same run
 """
 import collections
 import json
@@ -151,6 +157,21 @@ def tok_text(ts, qstyle="simple", style="compact"):
     return "".join(out)
 
 
+def uses_in(ts):
+    """variables a token sequence mentions, through escapes too"""
+    out = set()
+    for t in ts:
+        if t["k"] in ("var", "pipe"):
+            out.add(t["v"])
+        elif t["k"] == "q":
+            out |= uses_in(t["body"])
+    return out
+
+
+def replay_only_hint(ctx):
+    return bool(getattr(ctx, "replay", None))
+
+
 def has_bad(ts):
     return any(t["k"] == "bad" or t["k"] == "q" and has_bad(t["body"]) for t in ts)
 
@@ -243,6 +264,7 @@ SOURCES = {"w": ("svc.go", "//line /nonexistent/abs/gen.go:1\n", ""),
            "w/a": ("sv cω.go", "", ""),
            "w/a/b": ("gogo.go", "", "//line tmpl/mid.qtpl:7\n"),
            "w/k": ("go_log.go", "//line tmpl/gen.qtpl:1\n", "")}
+SIBLING_FILE, SIBLING_IFACE = "a0.go", "A0Unrelated"      # an interface declared in another file of each package
 PROBE = "PROBE\nPKG={{.PkgName}}\n{{range .Interfaces}}IFACE={{.Name}}\nSTRUCT={{.StructName}}\n{{end}}END\n"
 
 
@@ -253,7 +275,8 @@ class World:
         """level: where the five templated parameters are written -- "entry" (configs: list of the interface, any
         number of cases per run) or, for a single case, "iface" (config: of the interface), "pkg", "root"."""
         self.cases = cases
-        if level != "entry" and len(cases) != 1:
+        self.group = level.startswith("g-")
+        if level != "entry" and not self.group and len(cases) != 1:
             raise MachineryError("only a single case can be configured above the entry level")
         m = cases[0]["meta"]
         self.meta = m
@@ -263,13 +286,13 @@ class World:
         files = {"go.mod": "module example.com/r\n\ngo 1.23\n", "w/go.mod": vlib.GO_SUM_MOD, "probe.templ": PROBE}
         for d, pn in PKGS.items():
             fn, before, after = SOURCES[d]
-            files[d + "/a0.go"] = "package " + pn + "\n\ntype A0Unrelated interface{ Zzz() }\n"     # Layout!FirstFile
+            files[d + "/" + SIBLING_FILE] = "package " + pn + "\n\ntype " + SIBLING_IFACE + " interface{ Zzz() }\n"     # Layout!FirstFile
             files[d + "/" + fn] = before + "package " + pn + "\n\n" + after + "".join(
                 f"type {n} interface{{ Do(x int) string }}\n" for n in IFACES)
         for c in cases:
-            if c["meta"]["ifdir"] + "/" + c["meta"]["srcfile"] != "%R%/" + [d for d in SOURCES if "%R%/" + d == c["meta"]["ifdir"]][0] + "/" + \
-                    SOURCES[[d for d in SOURCES if "%R%/" + d == c["meta"]["ifdir"]][0]][0]:
-                raise MachineryError("source file names of the harness and of Layout.tla differ")
+            d0 = [d for d in SOURCES if "%R%/" + d == c["meta"]["ifdir"]][0]
+            if c["meta"]["srcfile"] != (SIBLING_FILE if c["meta"]["iface"] == SIBLING_IFACE else SOURCES[d0][0]):
+                raise MachineryError("source file names of the harness and of Layout.tla / TemplateResolveMC.tla differ")
         tmpl = self.sub(m["tmpl"])
         conf = {"template": tmpl, "packages": {}}
         if tmpl != "testify":
@@ -287,8 +310,13 @@ class World:
                 # no expected schema location to put a schema at: nothing but the resolution itself may fail
                 ent["require-template-schema-exists"] = False
             self.texts[c["id"]] = ent
-            pk = conf["packages"].setdefault(cm["pkgpath"], {"interfaces": {}})
-            if level == "entry":
+            if self.group:
+                pk = None
+            else:
+                pk = conf["packages"].setdefault(cm["pkgpath"], {"interfaces": {}})
+            if self.group:
+                pass
+            elif level == "entry":
                 pk["interfaces"].setdefault(cm["iface"], {"configs": []})["configs"].append(ent)
             elif level == "iface":
                 pk["interfaces"][cm["iface"]] = {"config": ent}
@@ -308,6 +336,27 @@ class World:
                     if not os.path.isabs(sp):
                         sp = os.path.join(self.sub(m["cwd"]), sp)
                     files[os.path.relpath(os.path.normpath(sp), R)] = '{"type": "object"}\n'
+        if self.group:
+            # siblings: ONE text of the five values (package config: or top level), the interfaces are selected without
+            # an entry of their own (all / include-interface-regex / recursive discovery)
+            ents = {json.dumps(e, sort_keys=True) for e in self.texts.values()}
+            if len(ents) != 1 or len({(c["meta"]["group"], c["meta"]["select"], c["meta"]["cfgpkg"]) for c in cases}) != 1 or \
+                    any(c["expect"]["kind"] != "ok" for c in cases):
+                raise MachineryError("a sibling group must share one text of the five values and be plainly resolvable: " + m["group"] + " " +
+                                     str(sorted(ents))[:600] + str({c["expect"]["kind"] for c in cases}))
+            ent = dict(next(iter(self.texts.values())))
+            sel = m["select"]
+            if sel == "regex":
+                ent["include-interface-regex"] = "^(" + "|".join(sorted(re.escape(n) for n in m["members"])) + ")$"
+            else:
+                ent["all"] = True
+                if sel == "recursive":
+                    ent["recursive"] = True
+            if level == "g-pkg":
+                conf["packages"][m["cfgpkg"]] = {"config": ent}
+            else:
+                conf.update(ent)
+                conf["packages"][m["cfgpkg"]] = {}
         files[os.path.relpath(self.sub(m["cfgdir"]) + "/" + m["cfgname"], R)] = json.dumps(conf, ensure_ascii=False, indent=1)
         if m["decoy"]:
             decoy = {"template": "testify", "dir": "{{.InterfaceDir}}/DECOY", "filename": "decoy_{{.InterfaceName}}.go",
@@ -449,8 +498,10 @@ class Judge:
 
     def sig(self, c, kind, **kw):
         m = c["meta"]
-        s = {"kind": kind, "sid": m["sid"][:2] if m["sid"][0] in "BTLD" else "res", "mode": m["mode"],
+        s = {"kind": kind, "sid": m["sid"][:2] if m["sid"][0] in "BTLDG" else "res", "mode": m["mode"],
              "layout_class": layout_class(m), "via": m["via"], "predicted_deviation": d14_of(c), "template": "testify" if m["tmpl"] == "testify" else "custom", "spelling": c.get("style", "compact")}
+        if m.get("group"):
+            s.update(select=m["select"], level="g-" + m["glevel"])
         s.update(kw)
         return s
 
@@ -467,10 +518,10 @@ class Judge:
         new = w.new_files()
         if res.timed_out:
             return "hang"
-        if len(w.cases) > 1 and res.code != 0:
+        if len(w.cases) > 1 and res.code != 0 and not w.group:
             return "isolate"            # somebody failed: find out who by running the cases one by one
         decoy_used = [p for p in new if "DECOY" in p]
-        for c in w.cases:
+        for c in (w.cases[:2] if w.group and res.code != 0 else w.cases):   # a failed group: one report is enough
             self.n_cases += 1
             e = c["expect"]
             self.by_kind[e["kind"]] += 1
@@ -565,6 +616,8 @@ def run_world(ctx, judge, name, cases, qstyle="simple", level="entry"):
         judge.levels[level] += len(cases)
 
     def halves():
+        if w.group:
+            raise MachineryError(f"run of sibling group {w.meta['group']} timed out: cannot attribute it to one interface")
         h = len(cases) // 2
         run_world(ctx, judge, name + "l", cases[:h], qstyle)
         run_world(ctx, judge, name + "r", cases[h:], qstyle)
@@ -630,6 +683,16 @@ def _run(ctx):
         # still shows an action literally ({{.StructName}} being its own fixpoint)
         literal = any("{{" in v for v in c["expect"]["vals"].values())
         c["style"] = "compact" if literal else ctx.rng.choice(SPELLINGS)
+    gstyle = {}
+    for c in cases:      # the siblings of a group share ONE text, hence one spelling
+        g = c["meta"].get("group")
+        if g:
+            gstyle.setdefault(g, c["style"])
+            if c["style"] == "compact":
+                gstyle[g] = "compact"
+    for c in cases:
+        if c["meta"].get("group"):
+            c["style"] = gstyle[c["meta"]["group"]]
     replay_only = None
     if getattr(ctx, "replay", None):
         try:
@@ -670,6 +733,23 @@ def _run(ctx):
         raise MachineryError("vacuous: no layout with a decoy config file")
     if not any(not c["meta"]["exported"] and "Mock" in c["uses"] for c in cases):
         raise MachineryError("vacuous: Mock never evaluated for an unexported interface")
+    if not replay_only_hint(ctx):
+        sib_need = {(sel, lv, p, v) for sel in ("all", "regex", "recursive") for lv in ("pkg", "root") for p in PARAMS
+                    for v in ("InterfaceName", "Mock", "StructName", "InterfaceFile")}
+        sib_have, sib_sizes = set(), collections.Counter()
+        for c in cases:
+            m = c["meta"]
+            if m.get("group"):
+                sib_sizes[(m["group"], m["pkgpath"])] += 1
+                for p in PARAMS:
+                    for v in uses_in(c["vals"][p]):
+                        sib_have.add((m["select"], m["glevel"], p, v))
+        # (structname referring to itself is the self-reference family's business)
+        sib_need -= {(sel, lv, "structname", "StructName") for sel in ("all", "regex", "recursive") for lv in ("pkg", "root")}
+        if sib_need - sib_have:
+            raise MachineryError(f"vacuous: sibling family lacks (selection, level, parameter, per-interface variable): {sorted(sib_need - sib_have)[:6]}")
+        if not sib_sizes or min(sib_sizes.values()) < 2:
+            raise MachineryError("vacuous: a sibling group with fewer than two interfaces of one package")
     for c in cases:   # the code-shaped loop count and the closed form agree (model sanity)
         if c["model"]["outcome"] == "done" and c["model"]["iters"] != c["predict"]["n"] + 1:
             raise MachineryError("model: iteration count and closed form disagree for " + c["id"])
@@ -678,12 +758,17 @@ def _run(ctx):
     rng = ctx.rng
     all_cases = cases
     if replay_only:
-        cases = [c for c in cases if c["id"] == replay_only]
+        rgroup = {c["meta"].get("group") for c in cases if c["id"] == replay_only} - {None}
+        cases = [c for c in cases if c["id"] == replay_only or c["meta"].get("group") in rgroup]    # a sibling comes with its group
         if not cases:
             raise MachineryError(f"case {replay_only} of the replay file is not generated by this tier")
     by_layout = collections.defaultdict(list)
+    groups = collections.defaultdict(list)
     for c in cases:
-        by_layout[(c["meta"]["lid"], c["meta"]["tmpl"])].append(c)
+        if c["meta"].get("group"):
+            groups[c["meta"]["group"]].append(c)
+        else:
+            by_layout[(c["meta"]["lid"], c["meta"]["tmpl"])].append(c)
     solo, batches = [], []
     budget_solo = 7000 if thorough else 170
     for key in sorted(by_layout):
@@ -723,13 +808,26 @@ def _run(ctx):
             rest.append(c)
     solo = pick + rest[:max(0, budget_solo - len(pick))]
 
+    # sibling groups: thorough replays every one; quick keeps every (layout, shape, selection mode, package) and draws the
+    # level (package config: / top level) the shared values are written at
+    gsel = sorted(groups)
+    if not thorough and not replay_only:
+        by_gk = collections.defaultdict(list)
+        for g in gsel:
+            m = groups[g][0]["meta"]
+            by_gk[(m["lid"], m["sid"][:2], m["select"], m["cfgpkg"], m["tmpl"])].append(g)
+        gsel = sorted(rng.choice(sorted(v)) for _, v in sorted(by_gk.items()))
     judge = Judge(ctx)
     # some plainly resolvable cases also run alone, so that every config level carries templated values
     extra = [c for _, cs in batches for c in cs[:1]]
     rng.shuffle(extra)
     solo += extra[:600 if thorough else 48]
     jobs = [("b%d" % i, cs, "simple", "entry") for i, (_, cs) in enumerate(batches)] + \
-           [("s%d" % i, [c], "print" if i % 3 == 2 else "simple", LEVELS[i % 4]) for i, c in enumerate(solo)]
+           [("s%d" % i, [c], "print" if i % 3 == 2 else "simple", LEVELS[i % 4]) for i, c in enumerate(solo)] + \
+           [("g%d" % i, sorted(groups[g], key=lambda c: c["id"]), "simple", "g-" + groups[g][0]["meta"]["glevel"])
+            for i, g in enumerate(gsel)]
+    ctx.cov["sibling_groups_exported"] = len(groups)
+    ctx.cov["sibling_groups_replayed"] = len(gsel)
     t_replay = time.time()
     with ThreadPoolExecutor(max_workers=8) as ex:
         list(ex.map(lambda j: run_world(ctx, judge, *j), jobs))
